@@ -32,7 +32,8 @@ class Params:
     """A concrete parameter set: how symbolic constants and bases are valued."""
 
     def __init__(self, dt=1.0, D=4, tau=20.0, A=1.0, S=0.5, u=1.0, alpha=0.5, target=1, obsmode="float",
-                 exact=False):
+                 exact=False, f64=False):
+        self.f64 = bool(f64)            # observations (hence the reducer's record) and view times in double precision
         self.dt, self.D, self.tau, self.A, self.S, self.u, self.alpha = dt, D, tau, A, S, u, alpha
         self.target, self.obsmode, self.exact = target, obsmode, exact
         self.tick = dt / D
@@ -41,7 +42,7 @@ class Params:
 
     def asdict(self):
         return {"dt": self.dt, "D": self.D, "tau": self.tau, "A": self.A, "S": self.S, "u": self.u,
-                "alpha": self.alpha, "target": self.target, "obsmode": self.obsmode, "exact": self.exact}
+                "alpha": self.alpha, "target": self.target, "obsmode": self.obsmode, "exact": self.exact, "f64": self.f64}
 
     def value(self, v):
         """(value, magnitude) of a symbolic value of the Reducers specification"""
@@ -120,7 +121,7 @@ class ReducerImpl:
                 # matching observations sit exactly ON the edge of the tolerance band (documented: |h - h*| <= eps)
                 x = x + (0.25 * P.u if (i + self.nobs) % 2 == 0 else -0.25 * P.u)
             vals.append(x)
-        return torch.tensor(vals, dtype=torch.float32).reshape(self.shape)
+        return torch.tensor(vals, dtype=torch.float64 if P.f64 else torch.float32).reshape(self.shape)
 
     def _mask_tensor(self, v):
         return torch.tensor([bool(o["m"]) for o in v], dtype=torch.bool).reshape(self.shape)
@@ -168,7 +169,8 @@ class ReducerImpl:
         if a == "view":
             tol = (o["tol2"] / 2) * self.P.tick
             if o["tens"]:
-                t = torch.tensor([z * self.P.tick for z in o["tauv"]], dtype=torch.float32).reshape(self.shape)
+                t = torch.tensor([z * self.P.tick for z in o["tauv"]],
+                                 dtype=torch.float64 if self.P.f64 else torch.float32).reshape(self.shape)
             else:
                 t = o["tau"] * self.P.tick
             x = r.view(t, tol)
